@@ -166,6 +166,7 @@ type axisState struct {
 	lastMap int
 	last    *big.Rat
 	dir     int   // key emulation: 0 off, +1, -1
+	actDir  int   // action axis: the direction whose action the axis currently holds
 	pair    *Pair // what the sounding direction was started with (nil when that direction is silent)
 	ccOwner bool
 }
